@@ -116,6 +116,63 @@ func evShutdown(base string, backend string, order string) string {
 	}
 	time.Sleep(5 * time.Millisecond)
 	done := make(chan struct{})
+	if order == "pending-change" {
+		// the cleanup task is parked INSIDE a cycle while the interval is changed (the new value waits in its mailbox);
+		// then the cache is stopped and the cycle released: stopping must return whichever of the two the task sees first
+		c.Destroy()
+		cancel()
+		cfg2 := config.NewDefault()
+		cfg2.Cache.CleanupInterval.Overwrite(duration.Duration(5 * time.Millisecond))
+		ctx2, cancel2 := context.WithCancel(context.Background())
+		defer cancel2()
+		entered := make(chan struct{}, 1)
+		release := make(chan struct{})
+		var once sync.Once
+		cache.VerifYield = func(p string) {
+			if p == "janitor.afterScan" {
+				once.Do(func() {
+					entered <- struct{}{}
+					<-release
+				})
+			}
+		}
+		defer func() { cache.VerifYield = nil }()
+		var c2 janitorCache
+		if backend == "file" {
+			dir2, _ := os.MkdirTemp(base, "shut2-")
+			defer os.RemoveAll(dir2)
+			c2 = cache.NewFileCache[int](cfg2, dir2, 1<<20, 5*time.Millisecond, 4, ctx2)
+		} else {
+			c2 = cache.NewMemoryCache[int](cfg2, 50, 1<<20, 5*time.Millisecond, 4, ctx2)
+		}
+		select {
+		case <-entered:
+		case <-time.After(3 * time.Second):
+			close(release)
+			c2.Destroy()
+			return "mailbox=0;parked=0" // no cycle came: nothing to observe
+		}
+		cfg2.Cache.CleanupInterval.Overwrite(duration.Duration(time.Hour))
+		dl := time.Now().Add(2 * time.Second)
+		for c2.VerifJanitorMailboxLen() != 1 && time.Now().Before(dl) {
+			time.Sleep(100 * time.Microsecond)
+		}
+		// a second change: its notifier finds the mailbox full and waits
+		cfg2.Cache.CleanupInterval.Overwrite(duration.Duration(2 * time.Hour))
+		time.Sleep(10 * time.Millisecond)
+		go func() {
+			c2.Destroy()
+			close(done)
+		}()
+		time.Sleep(10 * time.Millisecond) // stop() is under way
+		close(release)
+		select {
+		case <-done:
+			return "mailbox=0;parked=0"
+		case <-time.After(5 * time.Second):
+			return "HANG stopping the cache does not return while an interval change is pending"
+		}
+	}
 	go func() {
 		switch order {
 		case "cancel-destroy":
@@ -146,4 +203,33 @@ func evShutdown(base string, backend string, order string) string {
 		parked = 0
 	}
 	return "mailbox=" + strconv.Itoa(c.VerifJanitorMailboxLen()) + ";parked=" + strconv.Itoa(parked)
+}
+
+// `ev retime <backend> <wait_ms> <new_ms>`: a cache has been running for wait_ms with a long cleanup interval; the interval
+// is then changed to new_ms (possibly much shorter than the time already waited). The task follows the new interval (cycles
+// keep coming) and, above all, the process survives the accepted change.
+func evRetime(base string, backend string, waitMs, newMs int) string {
+	metrics.Global = metrics.NewMetrics()
+	cfg := config.NewDefault()
+	cfg.Cache.CleanupInterval.Overwrite(duration.Duration(time.Hour))
+	ctx, cancel := context.WithCancel(context.Background())
+	defer cancel()
+	var c janitorCache
+	if backend == "file" {
+		dir, _ := os.MkdirTemp(base, "retime-")
+		defer os.RemoveAll(dir)
+		c = cache.NewFileCache[int](cfg, dir, 1<<20, time.Hour, 4, ctx)
+	} else {
+		c = cache.NewMemoryCache[int](cfg, 50, 1<<20, time.Hour, 4, ctx)
+	}
+	defer c.Destroy()
+	time.Sleep(time.Duration(waitMs) * time.Millisecond)
+	start := metrics.Global.Cache.CleanupRuns.Get()
+	cfg.Cache.CleanupInterval.Overwrite(duration.Duration(time.Duration(newMs) * time.Millisecond))
+	time.Sleep(time.Duration(6*newMs+30) * time.Millisecond)
+	cycles := int(metrics.Global.Cache.CleanupRuns.Get() - start)
+	if cycles >= 2 {
+		return "follows:latest"
+	}
+	return "follows:older;cycles=" + strconv.Itoa(cycles)
 }
